@@ -22,6 +22,7 @@ def run(ctx):
     converts(ctx, "R3")
     discriminators(ctx, "R4")
     templates(ctx, "R5")
+    youtube_model(ctx, "R6")
 
 
 def public_functions(mod):
@@ -288,3 +289,88 @@ def templates(ctx, rule):
         ctx.ob(rule, "google/%s/template" % cls, has, "%s.url no longer follows the route %s that parse_google_drive_url recognises" % (cls, frag), gm.site(c))
     types = repo.const(gm, "DRIVE_TYPES")
     ctx.ob(rule, "google/drive-types", set(types) >= {"document", "presentation", "spreadsheets"}, "DRIVE_TYPES lost a type: %s" % types, gm.site(repo.const_node(gm, "DRIVE_TYPES")))
+
+
+# ----------------------------------------------------------------------
+# model table: the YouTube parser on route x name classes
+# ----------------------------------------------------------------------
+YT_VIDEO = "abcdefghijk"
+YT_CHANNEL_ID = "UCWvUxN9LAjJ-sTc5JJ3gEyA"
+YT_NAMES = ["somechannel", YT_CHANNEL_ID, "watch", "feed", "playlist", "results", "about", "embed", "user", "c", "channel", "shorts", "v", "video", "Some.Name-1", "@", ""]
+YT_NAME_ROUTES = ["/c/%s", "/c/@%s", "/@%s", "/%s", "/%s/", "/user/%s", "/channel/%s", "/c/%s/videos", "/%s/videos"]
+YT_OTHER = [
+    "/watch?v=" + YT_VIDEO, "/watch?v=" + YT_VIDEO + "&list=PL123", "/watch?list=PL123&v=" + YT_VIDEO, "/watch?v=" + YT_VIDEO + "xyz", "/watch?v=short", "/watch?v=", "/watch",
+    "/embed/" + YT_VIDEO, "/v/" + YT_VIDEO, "/video/" + YT_VIDEO, "/shorts/" + YT_VIDEO, "/shorts/" + YT_VIDEO + "?feature=share", "/shorts/bad", "/embed/", "/shorts/", "/channel/", "/user/", "/c/", "/v/", "/",
+    "", "/#/watch?v=" + YT_VIDEO, "/signin?next=%2Fwatch%3Fv%3D" + YT_VIDEO, "/playlist?list=PL123", "/feed/trending", "/results?search_query=x",
+]
+
+
+def youtube_model(ctx, rule):
+    ctx.rule(rule, "model table (YouTube): parse_youtube_url / normalize_youtube_url, interpreted on every url of {youtube.com, m.youtube.com, youtu.be} x {name routes /c/N, /c/@N, /@N, /N, /N/, /user/N, /channel/N, with a trailing tab} x {ordinary name, channel-id-looking name, each route word and reserved name, '@', ''} plus the video / short / truncated / continuation / fragment / foreign urls: never raise; video and short ids in a record satisfy is_youtube_video_id; and for every record r = parse(u), parse(normalize(u)) == r and normalize(normalize(u)) == normalize(u) (is_youtube_url replaced by a reference over YOUTUBE_DOMAINS)")
+    from ..microeval import run_function, Native, Raised
+    from urllib.parse import urlsplit
+    repo = ctx.repo
+    ym = repo.mod("youtube")
+    doms = repo.const(ym, "YOUTUBE_DOMAINS")
+    fparse = ym.func("parse_youtube_url")
+    fnorm = ym.func("normalize_youtube_url")
+    fvid = ym.func("is_youtube_video_id")
+    ctx.fn(fparse.qualname, fnorm.qualname, fvid.qualname)
+    site = ym.site(fparse.node)
+
+    def ref_is_youtube(u):
+        try:
+            h = (u.hostname if hasattr(u, "hostname") else urlsplit(u if "//" in u else "http://" + u).hostname) or ""
+        except ValueError:
+            return False
+        return any(h == d or h.endswith("." + d) for d in doms)
+
+    urls = []
+    for host in ("https://www.youtube.com", "m.youtube.com"):
+        for route in YT_NAME_ROUTES:
+            for name in YT_NAMES:
+                urls.append(host + route % name)
+        for tail in YT_OTHER:
+            urls.append(host + tail)
+    for tail in ("/" + YT_VIDEO, "/" + YT_VIDEO + "xyz", "/bad", "/", "", "/" + YT_VIDEO + "?list=PL1&t=3"):
+        urls.append("https://youtu.be" + tail)
+    urls += ["https://vimeo.com/watch?v=" + YT_VIDEO, "not a url", "https://www.youtube.com.evil.org/watch?v=" + YT_VIDEO]
+    repo.overrides = {"ural.youtube.is_youtube_url": Native(ref_is_youtube)}
+    n = 0
+    try:
+        for u in urls:
+            n += 1
+            try:
+                r = run_function(repo, fparse, [u])
+                norm = run_function(repo, fnorm, [u])
+            except Raised as e:
+                ctx.ob(rule, "youtube/total/%s" % u, False, "parse_youtube_url / normalize_youtube_url(%r) raises %s" % (u, e.name), site, witness=u)
+                continue
+            except Unknown as e:
+                ctx.undecided(rule, "youtube %r: %s" % (u, e))
+                continue
+            if r is None:
+                ctx.ob(rule, "youtube/unparsed-left-alone/%s" % u, norm == u, "normalize_youtube_url(%r) changes a url it cannot parse: %r" % (u, norm), site, witness=u, trivial=True)
+                continue
+            kind = type(r).__name__
+            if kind in ("YoutubeVideo", "YoutubeShort"):
+                try:
+                    okid = bool(run_function(repo, fvid, [r.id]))
+                except Unknown:
+                    okid = None
+                ctx.ob(rule, "youtube/valid-id/%s" % u, okid is not False, "parse_youtube_url(%r) returns %r whose id does not satisfy is_youtube_video_id" % (u, r), site, witness=u)
+            try:
+                r2 = run_function(repo, fparse, [norm])
+                norm2 = run_function(repo, fnorm, [norm])
+            except Raised as e:
+                ctx.ob(rule, "youtube/round-trip/%s" % u, False, "re-parsing %r (the canonical url of %r) raises %s" % (norm, u, e.name), site, witness=u)
+                continue
+            except Unknown as e:
+                ctx.undecided(rule, "youtube %r: %s" % (norm, e))
+                continue
+            ctx.ob(rule, "youtube/round-trip/%s" % u, r2 == r and norm2 == norm,
+                   "parse_youtube_url(%r) is %r and its canonical url is %r, which re-parses to %r (normalized again: %r): the canonical url of a record does not lead back to the record" % (u, r, norm, r2, norm2),
+                   site, witness=u, sample="%s -> %s -> %s" % (u, kind, norm))
+    finally:
+        repo.overrides = {}
+    ctx.require_instances(rule, n, len(urls), "youtube url cells")
